@@ -116,6 +116,11 @@ pub fn add_element(m: &mut Model, c: &Cfg, name: &str, k: usize) {
 pub fn model_single(c: &Cfg) -> Model {
     let mut m = context("D3", [1.0, 2.5][c.mult]);
     add_element(&mut m, c, "X", 0);
+    // every third configuration: the inside space owns no floor element (its floor is the ceiling of a space below that
+    // is not part of the model) - its elements still carry its multiplier
+    if (c.tilt + c.win + c.next) % 3 == 2 && c.tilt != 2 {
+        m.walls.retain(|w| w.name != "SI_F");
+    }
     m
 }
 
@@ -260,7 +265,7 @@ pub fn run08(ctx: &Ctx) -> i32 {
     ctx.sample(json!({"part": "pair", "a": format!("{:?}", core[5]), "b": format!("{:?}", core[77])}));
     ctx.finish(
         "model_checking",
-        "all 8064 single-element configurations (bounds 4 x tilt 3 x space{inside,outside,missing} x next_to{None,inside,outside,missing} x U override{-,set: 0.33 or exactly 0 alternating} x construction{ok,missing} x multiplier{1,2.5} x window{none,resolvable,unresolvable construction,overridden,overridden+unresolvable,covering the whole wall,construction present but frame missing}) in a fixed two-space context; all 25600 ordered pairs over a 160-configuration core (when both elements have a window the first wall gets a second window stored after the second wall's, so its windows are not contiguous in the list; + list reversal and id relabeling on every 5th pair); 9 bridge kinds x l{-1,-0.0,0,2.5} x psi{0,.1,-.05} singly and all together; 7 shipped models; oracle: K, totals, categories, u_min/u_max/u_mean, bridge sums recomputed in f64 from the model by the statement's formula (wall U from Wall::u_value, window U from the C07 formula) with an interval for the 0.01 m2 rounding of net areas; non-trivial = envelope area > 0",
+        "all 8064 single-element configurations (bounds 4 x tilt 3 x space{inside,outside,missing} x next_to{None,inside,outside,missing} x U override{-,set: 0.33 or exactly 0 alternating} x construction{ok,missing} x multiplier{1,2.5} x window{none,resolvable,unresolvable construction,overridden,overridden+unresolvable,covering the whole wall,construction present but frame missing}) in a fixed two-space context (every third configuration without the floor element of the inside space); all 25600 ordered pairs over a 160-configuration core (when both elements have a window the first wall gets a second window stored after the second wall's, so its windows are not contiguous in the list; + list reversal and id relabeling on every 5th pair); 9 bridge kinds x l{-1,-0.0,0,2.5} x psi{0,.1,-.05} singly and all together; 7 shipped models; oracle: K, totals, categories, u_min/u_max/u_mean, bridge sums recomputed in f64 from the model by the statement's formula (wall U from Wall::u_value, window U from the C07 formula) with an interval for the 0.01 m2 rounding of net areas; non-trivial = envelope area > 0",
         true,
         json!({"singles": n, "pairs": np}),
     )
@@ -465,7 +470,8 @@ pub fn run10(ctx: &Ctx) -> i32 {
         m.spaces[1].inside_tenv = true;
         m.spaces[1].multiplier = b.3;
         m.walls.push(w);
-        m.cons.wincons.push(wincons("winc2", uid("gl"), uid("fr"), 0.45, 0.0, Some(0.2), 9.0));
+        // (every other pair declares a fully opaque shading device: 0 is a declared value)
+        m.cons.wincons.push(wincons("winc2", uid("gl"), uid("fr"), 0.45, 0.0, Some([0.2f32, 0.0][j % 2]), 9.0));
         m.windows.push(window("Y_v", if b.2 == 0 { uid("winc2") } else { uid("missing") }, uid("Y"), None, 2.0, 1.0, 0.0));
         let case = || json!({"part": "pair", "zone": z, "a(az,tilt,cons,mult)": format!("{:?}", a), "b": format!("{:?}", b)});
         if let Some(ind) = check_model(ctx, &m, &["qsoljul"], &case, acc, "") {
